@@ -26,9 +26,12 @@ Definition table_entry_wf (e : string * string * nat * list raw_field) : bool :=
 
 Definition table_entry_matches (e : string * string * nat * list raw_field) : bool :=
   let '(p, m, cols, fs) := e in
-  match spec_of p m with
-  | Some sp => match_fields cols (table_of fs) sp
-  | None => match fs with [] => true | _ => false end
+  match fs with
+  | [] => true      (* a block that declares no fields has nothing to compare (it cannot be parsed at all: parse_block) *)
+  | _ => match spec_of p m with
+         | Some sp => match_fields cols (table_of fs) sp
+         | None => false
+         end
   end.
 
 Lemma all_tables_wf : forallb table_entry_wf all_tables = true.
@@ -478,3 +481,22 @@ Qed.
 Lemma dms_minus_zero : convert_dms "-0 06 46.0" = Some (-203 # 1800)%Q (* -(6/60 + 46/3600) *) /\ convert_dms " -00 25 18.6" = convert_dms "-0 25 18.6".
 Proof. split; vm_compute; reflexivity. Qed.
 
+
+(* ------------------------------------------------------------------------------------------ 0-d / 1-d results *)
+Lemma atleast_1d_shape {A} (rows : list A) : atleast_1d (genfromtxt_shape rows) = rows.
+Proof. destruct rows as [|r [|r' rs]]; reflexivity. Qed.
+
+Lemma stored_rows_all_off {A} (rows : list A) : stored_rows all_off rows = Some rows.
+Proof. unfold stored_rows. cbn [q_scalar all_off]. rewrite atleast_1d_shape. reflexivity. Qed.
+
+Lemma scalar_refuted {A} (r : A) :
+  stored_rows (mkQ false false false true) [r] = None /\ stored_rows all_off [r] = Some [r].
+Proof. split; reflexivity. Qed.
+
+Lemma parse_block_render t rows :
+  t <> [] -> Forall (fits t 0) rows ->
+  parse_block all_off false t (map (render_line t) rows) = Some (map (convert_row t) rows).
+Proof.
+  intros Ht H. unfold parse_block. destruct t as [|f t']; [congruence|].
+  rewrite parse_render by exact H. apply stored_rows_all_off.
+Qed.
